@@ -62,9 +62,8 @@ Definition checkN (k : caseN) : bool :=
         match n_out k with
         | IOk r' => Qs_eq r' (resize_sep (n_m k) (n_d k) (n_c k) (n_cast k)
                                 (n_ishape k) (n_oshape k) (n_offs k) (n_arr k))
-                    && (is_fwd (n_d k) ||
-                        Qs_eq r' (resize_sep_rev (n_m k) (n_c k) (n_cast k)
-                                    (n_oshape k) (n_ishape k) (n_offs k) (n_arr k)))
+                    && Qs_eq r' (resize_sep_rev (n_m k) (n_d k) (n_c k) (n_cast k)
+                                    (n_oshape k) (n_ishape k) (n_offs k) (n_arr k))
         | _ => false
         end
       else true).
